@@ -1163,7 +1163,8 @@ class WBEMSubscriptionManager:
             ValueError: Incorrect input parameter values.
         """  # noqa: E501
 
-        # server_id is validated in _create_...() method.
+        # Validate server_id
+        self._get_server(server_id)
 
         owned_destination_paths = [inst.path for inst in
                                    self._owned_destinations[server_id]]
